@@ -12,6 +12,16 @@
 // the text the program itself printed for (arg "")), the printed result and the
 // identity of the returned error are compared with the specification's
 // prediction.  Everything runs under recover().
+//
+// Shapes "gen" (Native!MkGen) are synthesised from parts -- parameter and
+// result types outside the documented kinds, second results of the type error
+// or of concrete types that implement it -- and judged by the set-up verdict
+// (accepted ones are then called).  Result mode "ext" returns the extreme
+// value Native!ExtOf names; the program prints it with %.0f and %e and the
+// NUMBER is compared with Native!ExtNum (exact digits where a float64 holds
+// the value exactly, else sign and order of magnitude).  Family "session":
+// several Execute calls on ONE interp.Interpreter, the first rejected at
+// set-up, then the same Funcs again or the corrected function (session.go).
 package c17
 
 import (
@@ -36,6 +46,18 @@ type Sig struct {
 	Res      string   `json:"res"`
 	Rk       string   `json:"rk"`
 	Err      string   `json:"err"`
+	Nres     int      `json:"nres,omitempty"` // shape "gen": number of results
+	R2       string   `json:"r2,omitempty"`   // shape "gen": type of the second result (Native!SecondKinds)
+	Xv       string   `json:"xv,omitempty"`   // res "ext": which extreme value the function returns (Native!ExtOf)
+}
+
+// NumPred is Native!ExtNum: the number an extreme result is.
+type NumPred struct {
+	Neg    bool   `json:"neg"`
+	Int    bool   `json:"int"`    // integer-valued: Digits holds the decimal digits of the magnitude
+	Digits string `json:"digits"` // "" when not integer-valued
+	Exact  bool   `json:"exact"`  // a float64 holds the value exactly
+	E10    int    `json:"e10"`    // decimal exponent of the leading digit
 }
 
 // GoVal is a Go value as the specification writes it.
@@ -59,6 +81,7 @@ type Outcome struct {
 	Printed *Pred    `json:"printed,omitempty"`
 	Ran     []string `json:"ran,omitempty"`    // the Go functions that run, in order
 	Dlines  []string `json:"dlines,omitempty"` // what the calls aa(7), mm("q"), zz(2, 3) print
+	Num     *NumPred `json:"num,omitempty"`    // res "ext": the number the result is
 }
 
 type Case struct {
@@ -107,6 +130,102 @@ var kindTypes = map[string]reflect.Type{
 }
 
 var errorType = reflect.TypeOf((*error)(nil)).Elem()
+
+// concrete types that IMPLEMENT error without being the type error
+type errno int
+
+func (e errno) Error() string { return fmt.Sprintf("errno %d", int(e)) }
+
+type ptrErr struct{ msg string }
+
+func (e *ptrErr) Error() string { return e.msg }
+
+type errStruct struct{ code int }
+
+func (e errStruct) Error() string { return fmt.Sprintf("code %d", e.code) }
+
+// Native!BadKinds: parameter / result types outside the documented kinds
+var badTypes = map[string]reflect.Type{
+	"struct": reflect.TypeOf(st{}), "map": reflect.TypeOf(map[string]int(nil)), "chan": reflect.TypeOf((chan int)(nil)),
+	"complex": reflect.TypeOf(complex128(0)), "func": reflect.TypeOf((func())(nil)), "intslice": reflect.TypeOf([]int(nil)),
+	"strslice": reflect.TypeOf([]string(nil)), "pointer": reflect.TypeOf((*int)(nil)),
+	"interface": reflect.TypeOf((*any)(nil)).Elem(), "array": reflect.TypeOf([2]byte{}),
+}
+
+// Native!SecondKinds
+var secondTypes = map[string]reflect.Type{
+	"error": errorType, "errno": reflect.TypeOf(errno(0)), "perr": reflect.TypeOf((*ptrErr)(nil)),
+	"errstruct": reflect.TypeOf(errStruct{}), "int": reflect.TypeOf(int(0)), "string": reflect.TypeOf(""),
+}
+
+func anyType(k string) (reflect.Type, bool) {
+	if t, ok := kindTypes[k]; ok {
+		return t, true
+	}
+	t, ok := badTypes[k]
+	return t, ok
+}
+
+// extValue is the Go value Native!ExtVal(k, x) names, of type t.
+func extValue(k, x string, t reflect.Type) (reflect.Value, bool) {
+	v := reflect.New(t).Elem()
+	bits := uint(t.Bits())
+	switch t.Kind() {
+	case reflect.Int, reflect.Int8, reflect.Int16, reflect.Int32, reflect.Int64:
+		switch x {
+		case "min":
+			v.SetInt(-1 << (bits - 1))
+		case "max":
+			v.SetInt(1<<(bits-1) - 1)
+		case "minus1":
+			v.SetInt(-1)
+		case "p53p1":
+			v.SetInt(1<<53 + 1)
+		case "negp53p1":
+			v.SetInt(-(1<<53 + 1))
+		default:
+			return v, false
+		}
+	case reflect.Uint, reflect.Uint8, reflect.Uint16, reflect.Uint32, reflect.Uint64:
+		switch x {
+		case "max":
+			v.SetUint(^uint64(0) >> (64 - bits))
+		case "p63":
+			v.SetUint(1 << 63)
+		case "p63m1":
+			v.SetUint(1<<63 - 1)
+		case "p63p1":
+			v.SetUint(1<<63 + 1)
+		case "p53p1":
+			v.SetUint(1<<53 + 1)
+		default:
+			return v, false
+		}
+		if (x != "max") && bits != 64 {
+			return v, false
+		}
+	case reflect.Float32, reflect.Float64:
+		max, den := math.MaxFloat64, math.SmallestNonzeroFloat64
+		if t.Kind() == reflect.Float32 {
+			max, den = math.MaxFloat32, math.SmallestNonzeroFloat32
+		}
+		switch x {
+		case "fmax":
+			v.SetFloat(max)
+		case "negfmax":
+			v.SetFloat(-max)
+		case "fden":
+			v.SetFloat(den)
+		case "negfden":
+			v.SetFloat(-den)
+		default:
+			return v, false
+		}
+	default:
+		return v, false
+	}
+	return v, true
+}
 
 // ErrSentinel is the error a recording function returns in mode "err".
 var ErrSentinel = errors.New("c17: the native function's own error")
@@ -216,9 +335,13 @@ type Recorder struct {
 
 // MakeFunc synthesises the Go function of a well-shaped signature.
 func MakeFunc(sig *Sig, rec *Recorder) (any, bool) {
+	gen := sig.Shape == "gen"
 	var in []reflect.Type
 	for i, k := range sig.Params {
 		t, ok := kindTypes[k]
+		if !ok && gen {
+			t, ok = badTypes[k]
+		}
 		if !ok {
 			return nil, false
 		}
@@ -228,7 +351,29 @@ func MakeFunc(sig *Sig, rec *Recorder) (any, bool) {
 		in = append(in, t)
 	}
 	var out []reflect.Type
-	if sig.Res != "none" {
+	var extV reflect.Value
+	if gen {
+		if sig.Nres >= 1 {
+			t, ok := anyType(sig.Rk)
+			if !ok {
+				return nil, false
+			}
+			out = append(out, t)
+		}
+		if sig.Nres >= 2 {
+			t, ok := secondTypes[sig.R2]
+			if !ok {
+				return nil, false
+			}
+			out = append(out, t)
+		}
+		if sig.Nres >= 3 {
+			out = append(out, errorType)
+		}
+		if sig.Nres > 3 || sig.Nres < 0 || (sig.Variadic && len(in) == 0) {
+			return nil, false
+		}
+	} else if sig.Res != "none" {
 		t, ok := kindTypes[sig.Rk]
 		if !ok {
 			return nil, false
@@ -236,6 +381,11 @@ func MakeFunc(sig *Sig, rec *Recorder) (any, bool) {
 		out = append(out, t)
 		if sig.Err != "none" {
 			out = append(out, errorType)
+		}
+		if sig.Res == "ext" {
+			if extV, ok = extValue(sig.Rk, sig.Xv, t); !ok {
+				return nil, false
+			}
 		}
 	}
 	ft := reflect.FuncOf(in, out, sig.Variadic)
@@ -258,6 +408,25 @@ func MakeFunc(sig *Sig, rec *Recorder) (any, bool) {
 			rec.Recv = append(rec.Recv, toGoVal(a))
 		}
 		var res []reflect.Value
+		if gen {
+			// a function built from parts returns the constant of its first result kind (the zero value of an
+			// undocumented one) and "no error": nil, errno(0), a nil pointer, a zero struct
+			for j, t := range out {
+				if _, ok := kindTypes[sig.Rk]; j == 0 && ok {
+					res = append(res, fromGoVal(retConst(sig.Rk), t))
+				} else {
+					res = append(res, reflect.Zero(t))
+				}
+			}
+			return res
+		}
+		if sig.Res == "ext" {
+			res = append(res, extV)
+			if sig.Err == "nil" {
+				res = append(res, reflect.Zero(errorType))
+			}
+			return res
+		}
 		if sig.Res != "none" {
 			if sig.Res == "echo" && first != nil {
 				res = append(res, *first)
@@ -287,6 +456,7 @@ type Observed struct {
 	Ran      []string // Go functions of the table that ran, in order
 	Dlines   []string // text printed after "D:" by the calls of the other functions
 	Awk      []string // text printed after "C:": the program's own (arg "") of every argument
+	Ext      string   // text printed after "X:": the result through %.0f and %e
 	Calls    int
 	Program  string
 	ErrIsOwn bool
@@ -314,16 +484,20 @@ func Program(sig *Sig, srcArgs []string, called bool, shadow, cf string) string 
 	for _, a := range srcArgs {
 		fmt.Fprintf(&sb, "  print \"C:\" ((%s) \"\")\n", a)
 	}
-	fmt.Fprintf(&sb, "  r = %s(%s); print \"R:\" r\n}\n", sig.Name, strings.Join(srcArgs, ", "))
+	fmt.Fprintf(&sb, "  r = %s(%s); print \"R:\" r\n", sig.Name, strings.Join(srcArgs, ", "))
+	if sig.Res == "ext" {
+		sb.WriteString("  printf \"X:%.0f %e\\n\", r, r\n")
+	}
+	sb.WriteString("}\n")
 	return sb.String()
 }
 
-// Run executes one case against the real code.
-func Run(sig *Sig, args []string, called bool, shadow, cf string) (*Observed, bool) {
-	var ran []string
-	rec := &Recorder{Name: sig.Name, Log: &ran}
+// makeTable builds the Funcs table of a case: the function of the signature under its name and the three others
+// (Native!GoResultOf); every Go function that runs appends its name to *ran.
+func makeTable(sig *Sig, rec *Recorder, ran *[]string) (map[string]any, bool) {
+	rec.Name, rec.Log = sig.Name, ran
 	var fn any
-	if sig.Shape == "ok" {
+	if sig.Shape == "ok" || sig.Shape == "gen" {
 		f, ok := MakeFunc(sig, rec)
 		if !ok {
 			return nil, false
@@ -336,18 +510,16 @@ func Run(sig *Sig, args []string, called bool, shadow, cf string) (*Observed, bo
 		}
 		fn = f
 	}
-	if shadow != "none" && shadow != "" {
-		if _, ok := otherAwkDef[shadow]; !ok {
-			return nil, false
-		}
-	}
-	// the other entries of the table (Native!GoResultOf)
 	funcs := map[string]any{
-		"aa": func(x int) int { ran = append(ran, "aa"); return x + 100 },
-		"mm": func(s string) string { ran = append(ran, "mm"); return s + "!" },
-		"zz": func(a, b int) int { ran = append(ran, "zz"); return 10*a + b },
+		"aa": func(x int) int { *ran = append(*ran, "aa"); return x + 100 },
+		"mm": func(s string) string { *ran = append(*ran, "mm"); return s + "!" },
+		"zz": func(a, b int) int { *ran = append(*ran, "zz"); return 10*a + b },
 	}
 	funcs[sig.Name] = fn
+	return funcs, true
+}
+
+func sourceArgs(args []string) ([]string, bool) {
 	srcArgs := make([]string, len(args))
 	for i, a := range args {
 		s, ok := valueSrc[a]
@@ -356,8 +528,11 @@ func Run(sig *Sig, args []string, called bool, shadow, cf string) (*Observed, bo
 		}
 		srcArgs[i] = s
 	}
-	prog := Program(sig, srcArgs, called, shadow, cf)
-	ob := &Observed{Program: prog}
+	return srcArgs, true
+}
+
+// parse runs the real parser under recover(); a panic or an error is left in ob.
+func parse(prog string, funcs map[string]any, ob *Observed) *parser.Program {
 	var p *parser.Program
 	var perr error
 	func() {
@@ -369,12 +544,18 @@ func Run(sig *Sig, args []string, called bool, shadow, cf string) (*Observed, bo
 		p, perr = parser.ParseProgram([]byte(prog), &parser.ParserConfig{Funcs: funcs})
 	}()
 	if ob.Panic != "" {
-		return ob, true
+		return nil
 	}
 	if perr != nil {
 		ob.O, ob.Err = "parse-error", perr
-		return ob, true
+		return nil
 	}
+	return p
+}
+
+// execute makes one Execute call -- on the interpreter *in, created from p if nil (and left in *in for the next
+// call of a session) -- with the Funcs table funcs, and fills ob with what happened.
+func execute(in **interp.Interpreter, p *parser.Program, funcs map[string]any, rec *Recorder, ran *[]string, called bool, ob *Observed) {
 	var out bytes.Buffer
 	var err error
 	func() {
@@ -386,14 +567,15 @@ func Run(sig *Sig, args []string, called bool, shadow, cf string) (*Observed, bo
 				}
 			}
 		}()
-		var in *interp.Interpreter
-		in, err = interp.New(p)
-		if err != nil {
-			return
+		if *in == nil {
+			*in, err = interp.New(p)
+			if err != nil {
+				return
+			}
 		}
-		_, err = in.Execute(&interp.Config{Stdin: strings.NewReader(Input), Output: &out, Error: &out, Environ: []string{}, Funcs: funcs})
+		_, err = (*in).Execute(&interp.Config{Stdin: strings.NewReader(Input), Output: &out, Error: &out, Environ: []string{}, Funcs: funcs})
 	}()
-	ob.Recv, ob.Calls, ob.Ran, ob.Err = rec.Recv, rec.Calls, ran, err
+	ob.Recv, ob.Calls, ob.Ran, ob.Err = rec.Recv, rec.Calls, *ran, err
 	text := out.String()
 	for _, line := range strings.Split(strings.TrimSuffix(text, "\n"), "\n") {
 		switch {
@@ -401,12 +583,14 @@ func Run(sig *Sig, args []string, called bool, shadow, cf string) (*Observed, bo
 			ob.Dlines = append(ob.Dlines, line[2:])
 		case strings.HasPrefix(line, "C:"):
 			ob.Awk = append(ob.Awk, line[2:])
+		case strings.HasPrefix(line, "X:") && strings.HasSuffix(text, "\n"):
+			ob.Ext = line[2:]
 		case strings.HasPrefix(line, "R:") && strings.HasSuffix(text, "\n"):
 			ob.HasR, ob.Printed = true, line[2:]
 		}
 	}
 	if ob.Panic != "" {
-		return ob, true
+		return
 	}
 	switch {
 	case err != nil && rec.Calls == 0 && text == "":
@@ -421,15 +605,68 @@ func Run(sig *Sig, args []string, called bool, shadow, cf string) (*Observed, bo
 	default:
 		ob.O = "ok"
 	}
+}
+
+// Run executes one case against the real code.
+func Run(sig *Sig, args []string, called bool, shadow, cf string) (*Observed, bool) {
+	var ran []string
+	rec := &Recorder{}
+	funcs, ok := makeTable(sig, rec, &ran)
+	if !ok {
+		return nil, false
+	}
+	if shadow != "none" && shadow != "" {
+		if _, ok := otherAwkDef[shadow]; !ok {
+			return nil, false
+		}
+	}
+	srcArgs, ok := sourceArgs(args)
+	if !ok {
+		return nil, false
+	}
+	prog := Program(sig, srcArgs, called, shadow, cf)
+	ob := &Observed{Program: prog}
+	p := parse(prog, funcs, ob)
+	if p == nil {
+		return ob, true
+	}
+	var in *interp.Interpreter
+	execute(&in, p, funcs, rec, &ran, called, ob)
 	return ob, true
 }
 
 func sigClass(sig *Sig) string {
-	if sig.Shape != "ok" {
+	if sig.Shape != "ok" && sig.Shape != "gen" {
 		return sig.Shape
 	}
 	if sig.Name != "fn" {
 		return "keyword-name"
+	}
+	if sig.Shape == "gen" {
+		// the part that makes the shape an undocumented one, if any
+		for i, k := range sig.Params {
+			if _, ok := kindTypes[k]; !ok {
+				c := "param-" + k
+				if sig.Variadic && i == len(sig.Params)-1 {
+					c = "variadic-" + k
+				} else if len(sig.Params) > 1 {
+					c += fmt.Sprintf("-at-%d-of-%d", i+1, len(sig.Params))
+				}
+				return c
+			}
+		}
+		if sig.Nres >= 3 {
+			return "three-results"
+		}
+		if _, ok := kindTypes[sig.Rk]; sig.Nres >= 1 && !ok {
+			return "result-" + sig.Rk
+		}
+		if sig.Nres == 2 && sig.R2 != "error" {
+			return "second-result-" + sig.R2
+		}
+	}
+	if sig.Res == "ext" {
+		return "result-extreme-" + sig.Rk + "-" + sig.Xv
 	}
 	s := fmt.Sprintf("%dparams", len(sig.Params))
 	if sig.Variadic {
@@ -546,11 +783,67 @@ func Compare(c *Case, ob *Observed) (string, string) {
 			return sg, fmt.Sprintf("printed result %q, want %q", ob.Printed, want)
 		}
 	}
+	if c.Outcome.O == "ok" && c.Outcome.Num != nil {
+		if what := compareNum(c.Outcome.Num, ob.Ext); what != "" {
+			return "C17/convert/result-extreme/" + c.Sig.Rk + "/" + c.Sig.Xv, what
+		}
+	}
 	return "", ""
+}
+
+// compareNum checks the text "<%.0f> <%e>" the program printed for an extreme result against Native!ExtNum: the sign,
+// the order of magnitude, and -- where a float64 holds the value exactly -- every digit.
+func compareNum(want *NumPred, ext string) string {
+	f := strings.Fields(ext)
+	if len(f) != 2 {
+		return fmt.Sprintf("the program printed %q for printf \"%%.0f %%e\"", ext)
+	}
+	fix, sci := f[0], f[1]
+	neg := strings.HasPrefix(sci, "-")
+	if neg != want.Neg {
+		return fmt.Sprintf("the result is %s in AWK: the sign differs from the value the function returned (%s)", sci, describeNum(want))
+	}
+	ei := strings.LastIndexAny(sci, "eE")
+	if ei < 0 {
+		return fmt.Sprintf("the result is %s in AWK, not a finite number; the function returned %s", sci, describeNum(want))
+	}
+	var e10 int
+	if _, err := fmt.Sscanf(sci[ei+1:], "%d", &e10); err != nil {
+		return fmt.Sprintf("the result is %s in AWK, not a finite number; the function returned %s", sci, describeNum(want))
+	}
+	// %e rounds to 7 significant digits: 9.9999995e18 would print as 1.000000e+19; none of the extremes is that
+	// close to a power of ten
+	if e10 != want.E10 {
+		return fmt.Sprintf("the result is %s in AWK: the order of magnitude differs from the value the function returned (%s)", sci, describeNum(want))
+	}
+	if want.Int && want.Exact {
+		digits := strings.TrimPrefix(fix, "-")
+		if digits != want.Digits {
+			return fmt.Sprintf("the result is %s in AWK, the function returned %s, which a float64 holds exactly", fix, describeNum(want))
+		}
+	}
+	return ""
+}
+
+func describeNum(n *NumPred) string {
+	s := ""
+	if n.Neg {
+		s = "-"
+	}
+	if n.Int {
+		return s + n.Digits
+	}
+	return fmt.Sprintf("%sd.ddd * 10^%d", s, n.E10)
 }
 
 // Replay is the hx.Replayer for Gen_Native exports.
 func Replay(raw json.RawMessage) hx.Outcome {
+	var probe struct {
+		Fam string `json:"fam"`
+	}
+	if err := json.Unmarshal(raw, &probe); err == nil && probe.Fam == "session" {
+		return ReplaySession(raw)
+	}
 	var c Case
 	if err := json.Unmarshal(raw, &c); err != nil || c.Outcome.O == "" {
 		return hx.Outcome{Skipped: true, Note: "bad case"}
@@ -569,7 +862,7 @@ func Replay(raw json.RawMessage) hx.Outcome {
 		if strings.HasPrefix(sig, "HARNESS/") {
 			return hx.Outcome{Skipped: true, Note: what}
 		}
-		return hx.Fail(sig, what, c.Outcome, map[string]any{"o": ob.O, "recv": ob.Recv, "printed": ob.Printed, "ran": ob.Ran, "dlines": ob.Dlines, "awk": ob.Awk, "err": fmt.Sprint(ob.Err)}, ob.Program)
+		return hx.Fail(sig, what, c.Outcome, map[string]any{"o": ob.O, "recv": ob.Recv, "printed": ob.Printed, "ran": ob.Ran, "dlines": ob.Dlines, "awk": ob.Awk, "ext": ob.Ext, "err": fmt.Sprint(ob.Err)}, ob.Program)
 	}
 	return hx.OK(c.Called && (c.Outcome.O == "ok" || c.Outcome.O == "abort") && (len(c.Args) > 0 || c.Sig.Res != "none") || c.Outcome.O == "setup-error" || c.Outcome.O == "parse-error")
 }
